@@ -1660,6 +1660,11 @@ fn ev_strategy(n_img: usize, n_pos: usize) -> BoxedStrategy<Ev> {
 impl Property for C11 {
     type Case = Case;
 
+    fn fuzz(&self) -> Option<FuzzSpec> {
+        // entropy-driven target: libFuzzer's bytes replace the generator's random numbers
+        Some(FuzzSpec { target: "gen", jobs: 8, runs: 80_000, max_len: 2048, seeds: 64 })
+    }
+
     fn id(&self) -> &'static str {
         "C11"
     }
